@@ -384,13 +384,15 @@ impl Property for C20 {
                 files[0].1.push_str("\ndef zz_probe : K");
                 let at0 = files[0].1.len() - 1;
                 let mut ws = Workspace::new(&files, &files[0].0);
-                let mut want: Vec<(String, usize)> = p
+                // (a name declared twice - forward declaration, then definition - is one class: the later
+                // declaration is the one in force at the end of the root)
+                let by_name: BTreeMap<String, usize> = p
                     .decls
                     .iter()
                     .filter(|d| d.kind == DeclKind::Class)
                     .map(|d| (d.name.clone(), p.decls.iter().filter(|t| t.kind == DeclKind::TemplateArg && t.owner == Some(d.id)).count()))
                     .collect();
-                want.sort();
+                let want: Vec<(String, usize)> = by_name.into_iter().collect();
                 // asked twice: on the program as opened, and after an edit that inserts a line at the top
                 // of the root (every include statement moves, no class comes or goes)
                 for round in 0..2 {
